@@ -179,17 +179,31 @@ def __init__(self, env, port, dist, pkt_in_service_included=False):
     self.pkt_in_service_included = pkt_in_service_included
 ''')
 
-spec('PortMonitor', 'run', what='byte_size already contains the packet in service: report it as is when included, minus '
-                                'the packet in service when excluded; packets: waiting (+ busy when included)')('''
+spec('PortMonitor', 'run', what='the packet in service is the one the port\'s server holds: flagged busy, or handed over in this '
+                                'instant (server\'s store request granted, server not yet resumed), or head of an idle port '
+                                'whose request is still pending (then it is not waiting); bytes: byte_size (minus that packet '
+                                'when excluded); packets: waiting (+ 1 when included)')('''
 def run(self):
     while True:
         yield self.env.timeout(self.dist())
+        waiting = len(self.port.store.items)
+        busy = self.port.busy
+        busy_packet_size = self.port.busy_packet_size
+        request = self.port.action.target
+        if not busy and isinstance(request, StoreGet):
+            if request.triggered:
+                busy = 1
+                busy_packet_size = request.value.size
+            elif waiting:
+                busy = 1
+                busy_packet_size = self.port.store.items[0].size
+                waiting -= 1
         if self.pkt_in_service_included:
             total_byte = self.port.byte_size
-            total = len(self.port.store.items) + self.port.busy
+            total = waiting + busy
         else:
-            total_byte = self.port.byte_size - self.port.busy_packet_size
-            total = len(self.port.store.items)
+            total_byte = self.port.byte_size - busy_packet_size
+            total = waiting
         self._sizes.append(total)
         self._sizes_byte.append(total_byte)
 ''')
@@ -217,20 +231,24 @@ def __init__(self, env, delay_dist, loss_rate=None, wire_id=0, debug=False):
     self.action = env.process(self.run(env))
 ''')
 
-spec('Wire', 'put', what='entry instant stamped on every entry, then enqueued once')('''
+WIRE_VIEW = View(ignore_calls=('print', 'dprint'), ignore_targets=('*.current_time',))
+
+spec('Wire', 'put', view=WIRE_VIEW,
+     what='the entry instant is queued together with the packet (an object that re-enters while an earlier entry is '
+          'still inside - a retransmission, a hub branch - must not overwrite it), one enqueue per entry')('''
 def put(self, packet):
     self.packets_rec += 1
-    packet.current_time = self.env.now
-    self.store.put(packet)
+    self.store.put((self.env.now, packet))
 ''')
 
-spec('Wire', 'run', what='loss decided first (one draw, only when a rate is set); a kept packet draws one delay, waits '
-                         'delay - time already queued iff positive, is forwarded once; a lost packet delays nobody')('''
+spec('Wire', 'run', view=WIRE_VIEW,
+     what='loss decided first (one draw, only when a rate is set); a kept packet draws one delay, waits '
+          'delay - time since *this* entry iff positive, is forwarded once; a lost packet delays nobody')('''
 def run(self, env):
     while True:
-        packet = yield self.store.get()
+        entered, packet = yield self.store.get()
         if not self.loss_rate or random.uniform(0, 1) >= self.loss_rate:
-            queued_time = self.env.now - packet.current_time
+            queued_time = self.env.now - entered
             delay = self.delay_dist()
             if delay - queued_time > 0:
                 yield env.timeout(delay - queued_time)
@@ -254,7 +272,7 @@ def set_endpoints(self, dev1, dev2):
 
 # ------------------------------------------------------------------ token_bucket.py
 
-spec('TokenBucket', '__init__', what='bucket initially full')('''
+spec('TokenBucket', '__init__', what='bucket initially full: level = size, refill origin = the instant of creation')('''
 def __init__(self, env, rate, bucket_size, peak=None, debug=False):
     self.env = env
     self.store = Store(env)
@@ -265,7 +283,7 @@ def __init__(self, env, rate, bucket_size, peak=None, debug=False):
     self.bucket_size = bucket_size
     self.peak = peak
     self.current_bucket = bucket_size
-    self.update_time = 0.0
+    self.update_time = env.now
     self.debug = debug
     self.busy = 0
     self.action = env.process(self.run(env))
@@ -316,7 +334,7 @@ def __init__(self, env, cir, cbs, pir=None, pbs=None, debug=False):
     self.packets_sent = 0
     self.current_bucket_commit = cbs
     self.current_bucket_peak = pbs
-    self.update_time = 0.0
+    self.update_time = env.now
     self.debug = debug
     self.busy = 0
     self.action = env.process(self.run(env))
